@@ -135,6 +135,88 @@ impl WorkerCtx {
         }
     }
 
+    /// The marker as last written (by this process or by a forked child sharing the mapping).
+    pub fn read_mark(&self) -> (u64, u64) {
+        if self.marker.is_null() {
+            return (0, 0);
+        }
+        unsafe { ((self.marker as *const u64).read_volatile(), (self.marker.add(8) as *const u64).read_volatile()) }
+    }
+
+    /// Run `f` on this context inside a forked child (crash / hang isolation for code that has no
+    /// budget). Counters, distinct hashes and known-finding hits made by the child are merged
+    /// back; violations are printed by the child itself. Returns how the child ended.
+    pub fn in_child(&mut self, timeout_ms: u64, f: impl FnOnce(&mut WorkerCtx)) -> Iso {
+        let r = {
+            let me: *mut WorkerCtx = self;
+            isolated(timeout_ms, move || {
+                // Safety: the child owns its copy of the address space
+                let ctx = unsafe { &mut *me };
+                ctx.stats.clear();
+                ctx.distinct.clear();
+                ctx.known_hits.clear();
+                ctx.violations = 0;
+                if let Some(c) = &mut ctx.collected {
+                    c.clear();
+                }
+                f(ctx);
+                let mut out = String::new();
+                if let Some(c) = &ctx.collected {
+                    for j in c {
+                        out.push_str(&format!("c\t{}\n", j.dump()));
+                    }
+                }
+                for (k, v) in &ctx.stats {
+                    out.push_str(&format!("s\t{k}\t{v}\n"));
+                }
+                for (k, v) in &ctx.known_hits {
+                    out.push_str(&format!("k\t{k}\t{v}\n"));
+                }
+                out.push_str(&format!("v\t{}\n", ctx.violations));
+                for h in &ctx.distinct {
+                    out.push_str(&format!("d\t{h}\n"));
+                }
+                out.into_bytes()
+            })
+        };
+        if let Iso::Done(bytes) = &r {
+            for line in String::from_utf8_lossy(bytes).lines() {
+                let mut it = line.split('\t');
+                match (it.next(), it.next(), it.next()) {
+                    (Some("s"), Some(k), Some(v)) => {
+                        let v: u64 = v.parse().unwrap_or(0);
+                        if k.starts_with("max:") {
+                            let e = self.stats.entry(k.to_string()).or_insert(0);
+                            *e = (*e).max(v);
+                        } else {
+                            *self.stats.entry(k.to_string()).or_insert(0) += v;
+                        }
+                    }
+                    (Some("k"), Some(k), Some(v)) => *self.known_hits.entry(k.to_string()).or_insert(0) += v.parse().unwrap_or(0),
+                    (Some("v"), Some(v), _) => {
+                        let n: u64 = v.parse().unwrap_or(0);
+                        self.violations += n;
+                        self.emitted += n.min(40) as usize;
+                    }
+                    (Some("c"), Some(_), _) => {
+                        if let (Some(c), Some((_, js))) = (&mut self.collected, line.split_once('\t')) {
+                            if let Ok(j) = J::parse(js) {
+                                c.push(j);
+                            }
+                        }
+                    }
+                    (Some("d"), Some(h), _) => {
+                        if let Ok(h) = h.parse() {
+                            self.distinct.insert(h);
+                        }
+                    }
+                    _ => {}
+                }
+            }
+        }
+        r
+    }
+
     /// Cheap progress signal inside long cases.
     pub fn beat(&mut self, sub: u64) {
         self.heartbeat += 1;
@@ -346,6 +428,7 @@ pub fn isolated(timeout_ms: u64, f: impl FnOnce() -> Vec<u8>) -> Iso {
             return Iso::Exit(-1);
         }
         if pid == 0 {
+            libc::prctl(libc::PR_SET_PDEATHSIG, libc::SIGKILL);
             libc::close(fds[0]);
             let r = std::panic::catch_unwind(std::panic::AssertUnwindSafe(f));
             let code = match r {
